@@ -14,6 +14,20 @@ HEADER = r'''
 int verif_thrown;
 typedef struct vsv { const char *data; size_t len; } vsv;
 #define SV_REQ(s) ((s).len <= 1000000 && __CPROVER_is_fresh((s).data, (s).len))
+/* std::pow(a, b), [cmath.syn] overload resolution: an integer argument counts as double, the result has the widest of the
+ * (promoted) argument types.  The value is arbitrary (accuracy of libm is not claimed); the ghost records in which type the
+ * power was computed. */
+int verif_pow_kind; /* ghost: 1 float, 2 double, 3 long double */
+static inline float verif_powf(float a, float b) { float verif_r; verif_pow_kind = 1; return verif_r; }
+static inline double verif_pow(double a, double b) { double verif_r; verif_pow_kind = 2; return verif_r; }
+static inline long double verif_powl(long double a, long double b) { long double verif_r; verif_pow_kind = 3; return verif_r; }
+#define VERIF_PROMOTE(x) _Generic((x), float: (x), long double: (x), default: (double)(x))
+#define VERIF_POW(a, b) _Generic(VERIF_PROMOTE(a) + VERIF_PROMOTE(b), float: verif_powf, double: verif_pow, long double: verif_powl)((a), (b))
+#ifdef VERIF_CBMC
+#define VERIF_GHOST(x) x
+#else
+#define VERIF_GHOST(x)
+#endif
 '''
 
 
@@ -27,16 +41,27 @@ def build(prop, tier="quick"):
         r = Rules("parse_num_" + tname)
         r.add("R9.rangefor", r"for \(const auto c : t_str\) \{", "for (size_t verif_i = 0; verif_i < t_str.len; ++verif_i) { const char c = t_str.data[verif_i];", min_fire=1)
         r.add("R9.brace_init", r"\bT base\{\};", "T base = 0;")
-        r.add("R9.pow", r"\bstd::pow\(T\(10\), ([^;]+)\)", r"verif_pow10_%s(\1)" % tname, min_fire=1)
+        r.add("R9.pow", r"\bstd::pow\(", "VERIF_POW(", min_fire=1)
         r.add("R6.fcast", r"(?<![\w>])T\(", "(T)(")
         r.extend(base_rules())
         r.add("R9.T", r"\bT\b", ctype)
         cname = "parse_num_" + tname
         c = chai2c.contracts_for(contracts, "parse_num", prop)
-        kb.add("static inline %s verif_pow10_%s(%s e) { %s verif_r; return verif_r; } /* std::pow: any value */" % (ctype, tname, ctype, ctype))
-        kb.emit_function("%s %s(vsv t_str)" % (ctype, cname), sl, r, c.fn, c.loops, cname, ghost=c.ghost)
+        kind = {"f32": 1, "f64": 2, "f80": 3}[tname]
+
+        def pre(body, kind=kind):
+            # block-level postcondition (C16: a literal is within a few ulp of its value IN ITS OWN TYPE): the power of ten that
+            # scales a literal with an exponent is computed in that type - ghost code under cbmc only
+            b, n = re.subn(r"\breturn exponent \? ([^;]+) : t;",
+                           r"{ T verif_r = exponent ? (\1) : t; VERIF_GHOST(__CPROVER_assert(!exponent || verif_pow_kind >= %d, "
+                           r'"[P] the power of ten of a literal with an exponent is computed in at least the precision of the literal type");) return verif_r; }' % kind, body)
+            if n != 1:
+                raise ExtractionBreak("parse_num<floating>: `return exponent ? ... : t;` not found")
+            return b
+
+        kb.emit_function("%s %s(vsv t_str)" % (ctype, cname), sl, r, c.fn, c.loops, cname, ghost=c.ghost, pre=pre)
         kb.add('void h_%s(void) { vsv s; %s(s); VERIF_CANARY("%s returns normally"); }' % (cname, cname, cname))
-        t = Target(cname, "h_" + cname, objbits=8, flags=["--signed-overflow-check", "--conversion-check", "--float-overflow-check"],
+        t = Target(cname, "h_" + cname, objbits=8, solver="sat:cadical", timeout=1500, flags=["--signed-overflow-check", "--conversion-check", "--float-overflow-check"],
                    excluded=[r"arithmetic overflow on floating-point", r"NaN on"])
         t.expect_loops = True
         kb.targets.append(t)
